@@ -207,7 +207,7 @@ def render_stmts(sc):
              "deps": st["deps"],
              "depfile": st["depfile"], "rsp": st["rsp"], "says": st["says"], "follow": follows(st),
              "restat": st["restat"] or st.get("restat_like", False), "early": st["early"], "dd": st["dd"],
-             "nocmd": bool(st["generator"]), "respell": bool(st.get("respell"))}
+             "nocmd": bool(st["generator"]), "respell": bool(st.get("respell")), "keep2": bool(st.get("keep2"))}
         if st["ins"]:
             e["primary"] = st["ins"][0]
         if not e["reads"]:
